@@ -388,7 +388,11 @@ func toArrayType(ctx *blockCtx, v *ast.ArrayType) types.Type {
 	if _, ok := v.Len.(*ast.Ellipsis); ok {
 		return types.NewArray(elem, -1) // A negative length indicates an unknown length
 	}
-	return types.NewArray(elem, toInt64(ctx, v.Len, "non-constant array bound %s"))
+	n := toInt64(ctx, v.Len, "non-constant array bound %s")
+	if n < 0 {
+		panic(ctx.newCodeErrorf(v.Len.Pos(), "invalid array length %s", ctx.LoadExpr(v.Len)))
+	}
+	return types.NewArray(elem, n)
 }
 
 func toInt64(ctx *blockCtx, e ast.Expr, emsg string) int64 {
